@@ -346,6 +346,11 @@ CLAUSES = [
     ),
 ]
 
+from ..names_check import names_clause  # noqa: E402
+
+if names_clause("C01") is not None:
+    CLAUSES.append(names_clause("C01"))
+
 PROPERTY = Property(
     id="C01",
     level="exploration",
